@@ -218,8 +218,11 @@ class SyncBSE:
 
     def check(s, st0, a, st):
         out = []
-        if st.gget('deadpool_panics') and s.cfg['create'] == 'ok':
-            out.append(s.vio('panic raised inside deadpool-sync: ' + st.gget('deadpool_panics')[-1], st)); return out
+        # a panic inside a blocking task is caught by the runtime and reported through the JoinHandle (by design: interact on a poisoned
+        # wrapper); a panic raised by deadpool code on the async thread is a violation (except the documented one in SyncWrapper::new)
+        for e in st.log:
+            if e[0] == 'panic' and e[1] == 'A' and e[2] == 'deadpool' and s.cfg['create'] == 'ok':
+                out.append(s.vio('panic raised inside deadpool-sync on the async thread: ' + e[3], st)); return out
         for (tag, tn, kind) in st.gget('val_drops', ()):
             if kind != 'blocking': out.append(s.vio(f'the wrapped value was destroyed on thread {tn} ({kind}), not on a blocking thread', st))
         if len(st.gget('val_drops', ())) > 1: out.append(s.vio('the wrapped value was destroyed more than once', st))
